@@ -647,6 +647,39 @@ def main():
                         if got.shape != vec[:, k].shape or not (np.abs(got - vec[:, k]).max() <= 1e-10 * (1 + np.abs(vec).max())):
                             res.fail(f"sim=Beam component={nm}", f"Result('{nm}') differs from column {k} of the {what} (element means)", ident)
 
+    # ---------------- reactions of a beam frame whose members are tied by a connection (Lagrange multipliers in the system) ----------------
+    from EasyFEA import Mesher as _MesherF, ElemType as _ETF
+    from EasyFEA.Geoms import Domain as _DomF, Point as _PtF, Line as _LineF
+    for etb in (["SEG2", "SEG3"] if args.tier == "quick" else ["SEG2", "SEG3", "SEG4"]):
+        for timo in (False, True):
+            fx_, fy_ = rng.randint(1, 8) / 4, -rng.randint(1, 8) / 4
+            ident = dict(sim="Beam", elemType=etb, timoshenko=timo, frame="(0,0)-(1,0)-(1,1), clamped at (0,0), connection at (1,0), load at (1,1)", load=[fx_, fy_])
+            res.case(("beam-frame-reactions", etb, timo))
+            res.count("beam-frame-reactions")
+            try:
+                sect_ = _MesherF().Mesh_2D(_DomF(_PtF(), _PtF(0.1, 0.1)))
+                bf1 = Models.Beam.Isotropic(2, _LineF(_PtF(0, 0), _PtF(1.0, 0), 0.25), sect_, 1000.0, 0.3)
+                bf2 = Models.Beam.Isotropic(2, _LineF(_PtF(1.0, 0), _PtF(1.0, 1.0), 0.25), sect_, 1000.0, 0.3)
+                mf_ = _MesherF().Mesh_Beams([bf1, bf2], elemType=_ETF(etb))
+                kw_ = dict(useTimoshenko=True) if timo else {}
+                try:
+                    sf_ = Simulations.Beam(mf_, Models.Beam.BeamStructure([bf1, bf2]), **kw_)
+                except TypeError:
+                    if timo:
+                        continue
+                    raise
+                clamp_, tip_, corner_ = mf_.Nodes_Point(_PtF(0, 0)), mf_.Nodes_Point(_PtF(1.0, 1.0)), mf_.Nodes_Point(_PtF(1.0, 0))
+                sf_.add_dirichlet(clamp_, [0.0, 0.0, 0.0], ["x", "y", "rz"])
+                sf_.add_neumann(tip_, [fx_, fy_], ["x", "y"])
+                sf_.add_connection_fixed(corner_)
+                sf_.Solve()
+                rr_ = np.asarray(sf_.Calc_Reaction(sf_.Bc_dofs_nodes(clamp_, ["x", "y", "rz"])), dtype=float).ravel()
+                want_ = np.array([-fx_, -fy_, -(1.0 * fy_ - 1.0 * fx_)])     # forces, and moment about the clamp of the load applied at (1, 1)
+                if rr_.shape != want_.shape or not (np.abs(rr_ - want_).max() <= 1e-8 * (1 + np.abs(want_).max())):
+                    res.fail("reactions of a beam frame with a connection do not balance the load", f"Calc_Reaction at the clamp = {rr_.tolist()}, expected {want_.tolist()}", ident)
+            except Exception as ex:  # noqa: BLE001
+                res.fail("reactions of a beam frame with a connection raise", f"{type(ex).__name__}: {str(ex)[:160]}", ident)
+
     # ---------------- correspondence ----------------
     lines = ["kinematic Elastic", "kinematic WeakForms", "components 2", "components 3"]
     pts = [[dy(rng, -2, 2) for _ in range(6)] for _ in range(4)]
